@@ -4,6 +4,7 @@ import (
 	"fmt"
 	"math/big"
 	"math/rand"
+	"strings"
 
 	"github.com/consensys/gnark-crypto/ecc/bn254/fr"
 	"github.com/consensys/gnark/frontend"
@@ -248,7 +249,7 @@ func transcriptPhase(kind string) int {
 		return 6
 	case len(kind) > 15 && kind[:15] == "Proof.Openings.":
 		return 8
-	case kind == "Proof.OpeningProof.CommitPhaseMerkleCaps[][]":
+	case strings.HasPrefix(kind, "Proof.OpeningProof.CommitPhaseMerkleCaps"):
 		return 10 // cap 0 -> first beta; refined per cap index in the check
 	case kind == "Proof.OpeningProof.FinalPoly.Coeffs[][].Limb", kind == "Proof.OpeningProof.PowWitness.Limb":
 		return 14
@@ -393,7 +394,7 @@ func init() {
 						l.Set(new(big.Int).Mod(new(big.Int).Add(old, big.NewInt(int64(1+r.Intn(1000)))), bigR))
 					}
 					phase := transcriptPhase(changedKind)
-					if changedKind == "Proof.OpeningProof.CommitPhaseMerkleCaps[][]" {
+					if strings.HasPrefix(changedKind, "Proof.OpeningProof.CommitPhaseMerkleCaps") {
 						var ci, cj int
 						fmt.Sscanf(l.Path, "Proof.OpeningProof.CommitPhaseMerkleCaps[%d][%d]", &ci, &cj)
 						phase = 10 + 2*ci
